@@ -18,9 +18,10 @@ CODE_TEXT = {
     "7": "destination without owner not answered by NameHasNoOwner / ServiceUnknown",
     "8": "a message to an existing owner was refused without any documented reason (requested-reply rule, fds, outstanding serial, reply limit)",
     "9": "a connection was closed by the bus / unknown observation",
+    "10": "messages held for an activation were not released to the new owner exactly once each and in arrival order per sender",
 }
 C09_CODES = {"1", "4", "5", "6", "8", "9"}
-C05_CODES = {"2", "3", "4", "7", "8", "9"}
+C05_CODES = {"2", "3", "4", "7", "8", "9", "10"}
 
 
 def cfg_str(cfg):
